@@ -104,7 +104,7 @@ Proof.
   unfold host_rendered, host_part, is_lit. destruct Hf as [_ Hf].
   destruct (hostText u) as [h|]; [|destruct Hf as (E & _); rewrite E in H4; contradiction].
   destruct Hf as [_ Hf]. destruct (ip4 u) as [o|] eqn:E4; [|contradiction].
-  destruct (ip6 u), (ipFuture u); try contradiction; try (destruct Hf as [Hf _]; discriminate Hf).
+  destruct (ip6 u), (ipFuture u); try contradiction; try (exfalso; destruct Hf as (Hf' & _); discriminate Hf').
   cbn [is_some orb]. apply Hrender. symmetry. exact Hf.
 Qed.
 
